@@ -89,6 +89,11 @@ def plan(tier, seed):
     out = []
     for name, pairs, menu, costs, rooted in slices(tier):
         out.extend(L.split_plan(name, pairs, menu, 150, {"costs": costs, "rooted": rooted}))
+    # SIX families, loosely constrained: the leaves ab, cd, e, f in every arrangement on the two 4-leaf combs (one species):
+    # 180 compatible root orders per input, few of them optimal
+    out.extend(L.split_plan("O4combx1x{ab,cd,e,f}/180 root orders", [(sh, None) for sh in spaces.chain_shapes(4)[::3]],
+                            [("a", "b"), ("c", "d"), ("e",), ("f",)], 4,
+                            {"costs": [(0, 1, 1, 1, 1)], "rooted": False, "all_families": 6}))
     # operation histories: one input object per shape pair (ancestors named / unnamed), its leaf assignment, syntenies and
     # costs updated in place from one case to the next; every call is checked against the oracle of the current state
     core = [c for c in spaces.CV_CORE if spaces.coherent(c)]
@@ -152,6 +157,8 @@ def run_shard(shard, tier, seed):
     counters = {"solver_runs": 0, "inconsistent_inputs": 0}
     sess = A.Session(O, S, labelled=True, unordered=False, unnamed=shard.get("unnamed", False)) if shard.get("session") else None
     for leafmap, leafsyn in L.labelled_inputs(O, S, shard["menu"], shard.get("part")):
+        if shard.get("all_families") and len({f for x in leafsyn.values() for f in x}) < shard["all_families"]:
+            continue
         roots = [None]
         if shard["rooted"]:
             roots = ordered.root_orders(leafsyn)
